@@ -84,7 +84,7 @@ def _parse_block(lines):
             r["status"] = "undecided"
             r["reason"] = "std::fmt::format stub line missing"
     elif "VERIFICATION:- FAILED" in text:
-        real = [c for c in r["failed_checks"] if not re.search(r"unwinding assertion|not supported|unsupported|Kani does not support", c["description"], re.I)]
+        real = [c for c in r["failed_checks"] if not re.search(r"unwinding assertion|not (currently )?supported|unsupported|Kani does not support", c["description"], re.I)]
         tool = [c for c in r["failed_checks"] if c not in real]
         if "CBMC timed out" in text:
             r["reason"] = "CBMC timed out"
